@@ -6,12 +6,12 @@ import (
 
 // Pool runs cases on n worker subprocesses.
 type Pool struct {
-	n    int
-	jobs chan poolJob
-	wg   sync.WaitGroup
-	mu   sync.Mutex
+	n        int
+	jobs     chan poolJob
+	wg       sync.WaitGroup
+	mu       sync.Mutex
 	Restarts int
-	err  error
+	err      error
 }
 
 type poolJob struct {
